@@ -217,20 +217,28 @@ type intQuant struct {
 	forall  bool
 	nested  bool // the body contains further quantifiers
 	gen     int
+	sort    string
 }
 
 type idxTerm struct {
-	t   Term
-	gen int
+	t    Term
+	gen  int
+	sort string
 }
 
 const maxInstGen = 2
 
 func (e *Exec) registerIntQuant(q Term, inst func(t Term) Term, forall bool, nested bool) {
+	e.registerQuant(q, inst, forall, nested, "Int")
+}
+
+// registerQuant: a named single-variable quantifier over `sort`, instantiated by the generator at the
+// terms of that sort the program uses (slice indices for Int, map keys for other sorts).
+func (e *Exec) registerQuant(q Term, inst func(t Term) Term, forall bool, nested bool, sort string) {
 	if e.inQuant > 0 {
 		return
 	}
-	iq := intQuant{q: q, inst: inst, forall: forall, nested: nested, gen: e.instGen}
+	iq := intQuant{q: q, inst: inst, forall: forall, nested: nested, gen: e.instGen, sort: sort}
 	e.intQuants = append(e.intQuants, iq)
 	if iq.gen >= maxInstGen {
 		return
@@ -239,7 +247,7 @@ func (e *Exec) registerIntQuant(q Term, inst func(t Term) Term, forall bool, nes
 		e.instantiate(iq, t)
 	}
 	// witness constant: if an exists holds (a forall fails) it does so at sk — conservative, whatever the polarity
-	sk := e.fresh("wit", "Int")
+	sk := e.fresh("wit", sort)
 	saved := e.instGen
 	e.instGen = iq.gen + 1
 	if forall {
@@ -248,10 +256,13 @@ func (e *Exec) registerIntQuant(q Term, inst func(t Term) Term, forall bool, nes
 		e.assumeKeyed(q, Implies(q, inst(sk)), "")
 	}
 	e.instGen = saved
-	e.noteIndexTermGen(sk, iq.gen+1)
+	e.noteTermGen(sk, iq.gen+1, sort)
 }
 
 func (e *Exec) instantiate(iq intQuant, t idxTerm) {
+	if iq.sort != t.sort {
+		return
+	}
 	if iq.nested && (t.gen > 0 || iq.gen > 0) {
 		return
 	}
@@ -271,17 +282,28 @@ func (e *Exec) instantiate(iq intQuant, t idxTerm) {
 }
 
 // noteIndexTerm: the program (or a contract) indexes a slice at t.
-func (e *Exec) noteIndexTerm(t Term) { e.noteIndexTermGen(t, 0) }
+func (e *Exec) noteIndexTerm(t Term) { e.noteTermGen(t, 0, "Int") }
 
-func (e *Exec) noteIndexTermGen(t Term, gen int) {
-	if e.inQuant > 0 || e.idxSeen[t] {
+// noteKeyTerm: the program uses t (of the given sort) as a map key.
+func (e *Exec) noteKeyTerm(t Term, sort string) {
+	if sort == "Bool" {
+		return
+	}
+	e.noteTermGen(t, 0, sort)
+}
+
+func (e *Exec) noteIndexTermGen(t Term, gen int) { e.noteTermGen(t, gen, "Int") }
+
+func (e *Exec) noteTermGen(t Term, gen int, sort string) {
+	key := sort + "|" + t
+	if e.inQuant > 0 || e.idxSeen[key] {
 		return
 	}
 	if e.idxSeen == nil {
 		e.idxSeen = map[string]bool{}
 	}
-	e.idxSeen[t] = true
-	it := idxTerm{t, gen}
+	e.idxSeen[key] = true
+	it := idxTerm{t, gen, sort}
 	e.idxTerms = append(e.idxTerms, it)
 	for _, iq := range append([]intQuant{}, e.intQuants...) {
 		if iq.gen < maxInstGen {
@@ -928,10 +950,13 @@ func (e *Exec) globalConst(g *ssa.Global) (Term, bool) {
 		e.symAt[name] = len(e.items)
 		so := e.reg.sortOf(deref(g.Type()))
 		e.items = append(e.items, Item{Kind: ItemDecl, Sym: name, Text: fmt.Sprintf("(declare-const %s %s)", name, so)})
-		switch so {
-		case "Int":
+		_, isFunc := unalias(deref(g.Type())).Underlying().(*types.Signature)
+		switch {
+		case isFunc:
+			e.assume(Not(Eq(name, "0")), "global function variable initialised once to a function (checked on the SSA program)")
+		case so == "Int":
 			e.assume(And(app(">", name, "0"), app("<=", name, e.compInit[allocComp])), "global initialised once to a non-nil value (checked on the SSA program)")
-		case "Any":
+		case so == "Any":
 			e.assume(And(Not(Eq(name, "nil_any")), Implies(app("(_ is box_ref)", name), And(app(">", app("ref", name), "0"), app("<=", app("ref", name), e.compInit[allocComp])))), "global initialised once to a non-nil value")
 		}
 	}
